@@ -52,6 +52,8 @@ OBLIGATIONS = {
     'O6.1': {'engine': 'B', 'title': 'a batch gets prev+1.. and the new sequence is published under the mutex only after the memtable insert', 'run': dbpaths.o6_1_sequence_publication, 'confirm': dbpaths.o6_1_confirm},
     'O5.1': {'engine': 'B', 'title': 'get / new_iterator capture memtable, immutable memtable, version and sequence while holding the mutex', 'run': dbpaths.o5_1_reads_under_mutex, 'confirm': dbpaths.o5_1_confirm},
     'O9.1': {'engine': 'B', 'title': 'no public method re-locks the non-reentrant database mutex on a path that holds it', 'run': dbpaths.o9_1_no_self_deadlock, 'confirm': dbpaths.o9_1_confirm},
+    'O4.3': {'engine': 'B', 'title': 'two-level table iterator equals the cursor over the concatenated data blocks under every cursor pattern', 'run': iters.o4_3_two_level,
+             'confirm': iters.o4_3_confirm, 'witness_ok': iters.o4_3_witness_ok},
 }
 # Engine A obligations (Kani harnesses in /verif/harness/src/proofs.rs; runner in /verif/kani/runner.py)
 import importlib.util as _u, os as _os
@@ -68,12 +70,12 @@ PROPERTIES = {
     'C06': {'obligations': ['O6.1', 'O5.1']},
     'C09': {'obligations': ['O9.1']},
     'C12': {'obligations': ['O12.1', 'O12.3', 'O12.4', 'O12.2']},
-    'C13': {'obligations': ['O1.6', 'O13.1', 'O1.1']},
+    'C13': {'obligations': ['O1.6', 'O4.3', 'O13.1', 'O1.1']},
     'C14': {'obligations': ['O14.1']},
     'C02': {'obligations': ['O12.3']},
     'C15': {'obligations': ['O15.5', 'O15.1', 'O15.2', 'O15.3']},
     'C16': {'obligations': ['O12.3', 'O16.2']},
     'C03': {'obligations': ['O1.6', 'O3.2a', 'O3.2b']},
-    'C04': {'obligations': ['O4.1']},
+    'C04': {'obligations': ['O4.1', 'O4.3']},
     'C10': {'obligations': ['O7.1', 'O1.3', 'O10.3']},
 }
